@@ -2,7 +2,7 @@
 import json, os
 from .context import Ctx
 from .report import Report
-from . import rules_effects, rules_own, rules_wipe
+from . import rules_effects, rules_own, rules_wipe, rules_tables
 
 TB_COMMON = ['clang-14 parsing and -O0 lowering of C11 (+ opt-14 mem2reg)', 'LLVM x86-64 data layout',
              'tools/irfacts.cc (IR -> JSON, no analysis)', 'psa/ir.py CFG, dominators, inclusion-based points-to']
@@ -41,9 +41,28 @@ def c18(ctx, rep):
     return 'who-may-call allow-list over all configurations; dependency table written only by polyseed_inject'
 
 
+def c07(ctx, rep):
+    rules_tables.registry_and_frozen(ctx, rep)
+    rules_tables.normalisation(ctx, rep)
+    rules_tables.search_preconditions(ctx, rep)
+    rules_tables.search_callsite(ctx, rep)
+    rep.assumptions += ['Python unicodedata (UCD 14/15) is the oracle for NFC/NFKD of the table constants',
+                        'that the four C comparator bodies implement the reference matching rule for all strings is C08\'s subject']
+    return ('exhaustive constant-table analysis over the IR initialisers of all 10 x 2048 words: registry, frozen content against '
+            'ref/, distinctness, normalisation closure, sortedness and unambiguity under the reference matching rule; bsearch constants')
+
+
+def c17(ctx, rep):
+    rules_tables.phrase_size(ctx, rep)
+    return ('per-position maxima of word lengths (NFKD and NFC) over all 2048 admissible indices, summed over 16 positions + 15 '
+            'separators, compared with the compiled sizeof(polyseed_str)')
+
+
 REGISTRY = {
     'C15': dict(fn=c15, level='proof', tb=TB_COMMON + ['psa/paths.py path walker (phi resolution, constant folding)']),
     'C16': dict(fn=c16, level='proof', tb=TB_COMMON + ['psa/taint.py propagation summaries for injected functions']),
+    'C07': dict(fn=c07, level='other', tb=TB_COMMON + ['Python unicodedata', 'ref/languages.json + ref/words (transcribed from the pinned release)']),
+    'C17': dict(fn=c17, level='proof', tb=TB_COMMON + ['Python unicodedata']),
     'C18': dict(fn=c18, level='other', tb=TB_COMMON),
     'C20': dict(fn=c20, level='proof', tb=TB_COMMON),
 }
